@@ -1510,6 +1510,12 @@ type c01sStep struct {
 	Grant  bool     `json:"grant,omitempty"`  // puppet: told the session ID when it did not see one on the wire
 	SNI    int      `json:"sni,omitempty"`    // server judges: 0 the client asks for the server's name, 1 for a name the host table does not know
 	Forge  uint64   `json:"forge,omitempty"`  // puppet: seed of the tag (and payload) bytes of its forged transport packets
+	// Baits (puppet, discoverable mode): SEVERAL ClientAuth messages on the ONE pending handshake. Before the ClientAuth for
+	// the identity it really has (Ident), the puppet sends one ClientAuth per bait identity: that identity's chain, encrypted
+	// under the puppet's running transcript with a correct tag, and a final MAC of seeded random bytes (nobody holds a bait's
+	// key, so a bait message can never complete a handshake by itself). The puppet keeps following the transcript: a message
+	// the server refuses while verifying the certificates leaves both sides in step, and the next ClientAuth is well-formed.
+	Baits []c01Ident `json:"baits,omitempty"`
 }
 
 type c01sCase struct {
@@ -1590,6 +1596,49 @@ type c01Puppet struct {
 	sid     SessionID
 	haveSid bool
 	buf     []byte
+	// ClientAuth messages for other identities sent on the pending handshake before the real one (see c01sStep.Baits)
+	baits     []c01Built
+	baitSeed  uint64
+	baitsSent int
+}
+
+// baitClientAuth writes and sends a ClientAuth for the chain of b on the pending handshake: header, session ID, the
+// certificates encrypted under the running transcript and the correct tag - exactly what writePQClientAuth produces up to
+// there - followed by a final MAC of random bytes instead of one made with DH(se): the puppet has no key for b.
+func (p *c01Puppet) baitClientAuth(b c01Built, seed uint64) {
+	leaf, err := b.leaf.Marshal()
+	if err != nil {
+		return
+	}
+	var inter []byte
+	if b.inter != nil {
+		if inter, err = b.inter.Marshal(); err != nil {
+			return
+		}
+	}
+	encLen := EncryptedCertificatesLength(leaf, inter)
+	if encLen > 0xffff {
+		return
+	}
+	d := &p.hs.duplex
+	msg := make([]byte, 0, HeaderLen+SessionIDLen+encLen+2*MacLen)
+	msg = append(msg, byte(MessageTypeClientAuth), 0, byte(encLen>>8), byte(encLen))
+	d.Absorb(msg[:HeaderLen])
+	msg = append(msg, p.hs.sessionID[:]...)
+	d.Absorb(p.hs.sessionID[:])
+	enc, err := EncryptCertificates(d, leaf, inter)
+	if err != nil {
+		return
+	}
+	msg = append(msg, enc...)
+	var tag [MacLen]byte
+	d.Squeeze(tag[:])
+	msg = append(msg, tag[:]...)
+	msg = append(msg, vlib.Fill(seed, MacLen)...)
+	p.send(msg)
+	p.baitsSent++
+	p.cut(fmt.Sprintf("after-its-client-auth-for-bait-identity-%d", p.baitsSent))
+	time.Sleep(2 * time.Millisecond) // the server has dealt with it before the next message leaves
 }
 
 func c01NewPuppet(n *simnet.Net, addr *net.UDPAddr, b c01Built, sni certs.Name) *c01Puppet {
@@ -1705,6 +1754,9 @@ func (p *c01Puppet) handshake(hidden bool, kem *keys.KEMPublicKey) {
 	if err != nil {
 		return
 	}
+	for i, b := range p.baits {
+		p.baitClientAuth(b, p.baitSeed+uint64(1000*i))
+	}
 	if n, err = hs.writePQClientAuth(p.buf); err != nil {
 		return
 	}
@@ -1770,6 +1822,7 @@ type c01sResult struct {
 	got     string // what the application read
 	learnt  string // how the puppet came by the session ID
 	tried   int    // key sets the puppet tried
+	baits   int    // ClientAuth messages for bait identities the puppet sent before its own
 	forged  int    // forged (unsealed) transport packets the puppet sent
 }
 
@@ -1789,8 +1842,16 @@ func c01sHandleAddr(h *Handle) *net.UDPAddr {
 func c01sScenario(c c01sCase) (out []c01sResult) {
 	w := vGetWorld()
 	builts := make([]c01Built, len(c.Steps))
+	baitBuilts := make([][]c01Built, len(c.Steps)) // (all fixtures are made at the start of the case, like the identities)
 	for i, st := range c.Steps {
 		builts[i] = c01Build(st.Ident)
+		for _, bid := range st.Baits {
+			bid.InSet, bid.Removed, bid.LowOrder = false, false, 0
+			if bid.Chain == 7 {
+				bid.Chain = 1 // (a hand-signed world would have to be planted in the judge's store: not a bait's business)
+			}
+			baitBuilts[i] = append(baitBuilts[i], c01Build(bid))
+		}
 	}
 	// ONE policy object for the whole sequence
 	vc := c01Verify(c.Policy, c01Built{})
@@ -1853,8 +1914,11 @@ func c01sScenario(c c01sCase) (out []c01sResult) {
 		var pup *c01Puppet
 		if st.Puppet {
 			pup = c01NewPuppet(env.Net, addr, b, c01sSNI(st.SNI))
+			pup.baits = baitBuilts[i]
+			pup.baitSeed = st.Forge ^ 0xBA17
 			pk := w.SrvKEM.Public
 			pup.handshake(c.Hidden, &pk)
+			r.baits = pup.baitsSent
 			r.cliErr = fmt.Errorf("puppet")
 		} else {
 			ccfg := w.ClientConfig(c.Hidden, false)
@@ -1979,6 +2043,9 @@ func c01sRun(t *testing.T) func(c c01sCase, v *vlib.Verdict) {
 			where := fmt.Sprintf(" [handshake #%d of %d against one verifier; earlier identities: %+v", i, len(rs), c.Steps[:i])
 			if st.Puppet {
 				where += fmt.Sprintf("; the counterpart is the puppet, session ID %q, %d key sets tried, %d forged packets (random tag, payload lengths %v) sent", r.learnt, r.tried, r.forged, c01ForgedLens)
+				if r.baits > 0 {
+					where += fmt.Sprintf("; BEFORE the ClientAuth for its own identity the puppet sent %d ClientAuth messages on the same pending handshake, carrying the chains of the bait identities %+v (correct tag, random final MAC)", r.baits, st.Baits[:r.baits])
+				}
 			}
 			if r.got != "" {
 				where += fmt.Sprintf("; the application read %q", r.got)
@@ -1989,7 +2056,9 @@ func c01sRun(t *testing.T) func(c c01sCase, v *vlib.Verdict) {
 			where += "]"
 			// sanity: an honest valid peer is served wherever it stands in the sequence - unless a lookup failed under it, or it
 			// asked for a host the table does not know
-			sanity := !r.fault && st.SNI == 0 && !(st.Puppet && r.tried == 0)
+			// (a peer that sent ClientAuth messages for other identities first is owed nothing: an acceptable bait makes the server
+			// absorb a key agreement the puppet cannot follow)
+			sanity := !r.fault && st.SNI == 0 && !(st.Puppet && r.tried == 0) && len(st.Baits) == 0
 			cr := r.c01Result
 			if st.Puppet {
 				// the puppet has no Handshake() result; its honest variant counts as served when its data arrives
@@ -2031,6 +2100,21 @@ func c01sRun(t *testing.T) func(c c01sCase, v *vlib.Verdict) {
 				}
 				if ok && c01Honest(st.Ident) && r.delivered {
 					v.Label("puppet:honest-variant-served")
+				}
+				if r.baits > 0 {
+					v.Label("puppet:several-client-auth-on-one-pending-handshake")
+					if ok && r.delivered {
+						v.Label("puppet:acceptable-identity-served-after-its-bait-client-auths")
+					}
+					for _, bid := range st.Baits[:r.baits] {
+						if !c.Policy.Nil && !c01NameOK(c.Policy.Name, st.Ident.Name) && c01NameOK(c.Policy.Name, bid.Name) {
+							v.Label("puppet:bait-carries-the-expected-name-own-certificate-does-not")
+							break
+						}
+					}
+					if !ok {
+						v.Label("puppet:bait-client-auths-then-unacceptable-identity:" + why)
+					}
 				}
 			}
 			if r.fault {
@@ -2082,10 +2166,48 @@ func c01sGenPolicy(t *rapid.T, server bool) c01Policy {
 	return p
 }
 
+// c01sGenBaited draws a puppet step that sends several ClientAuth messages on its one pending handshake: its own identity
+// is near-valid and mostly holds its key (a genuine certificate that falls short of the policy in one attribute - another
+// name, expired, another chain), each bait is an identity of any kind (mostly one nobody signed: hand-made, self-signed,
+// under the untrusted root) that mostly carries the expected name.
+func c01sGenBaited(t *rapid.T) c01sStep {
+	st := c01sStep{Puppet: true}
+	st.Ident = c01Ident{
+		Chain:    rapid.SampledFrom([]int{0, 0, 0, 0, 0, 1, 4, 2}).Draw(t, "chain"),
+		Time:     rapid.SampledFrom([]int{0, 0, 0, 0, 1, 2}).Draw(t, "time"),
+		TypeLeaf: rapid.SampledFrom([]bool{true, true, true, true, true, true, true, false}).Draw(t, "typeLeaf"),
+		Name:     rapid.SampledFrom([]int{1, 0, 4, 5, 6, 2, 1, 3, 7, 8}).Draw(t, "name"),
+		HoldsKey: rapid.SampledFrom([]bool{true, true, true, true, true, false}).Draw(t, "holdsKey"),
+		InSet:    rapid.SampledFrom([]bool{false, false, false, true}).Draw(t, "inSet"),
+	}
+	st.Baits = rapid.SliceOfN(rapid.Custom(func(t *rapid.T) c01Ident {
+		id := c01Ident{
+			Chain:    rapid.SampledFrom([]int{6, 2, 1, 6, 5, 3, 4, 0}).Draw(t, "chain"),
+			Time:     rapid.SampledFrom([]int{0, 0, 0, 1, 2}).Draw(t, "time"),
+			TypeLeaf: rapid.SampledFrom([]bool{true, true, true, false}).Draw(t, "typeLeaf"),
+			Name:     rapid.SampledFrom([]int{0, 3, 0, 8, 2, 0, 1, 4, 5, 6, 7}).Draw(t, "name"),
+		}
+		if id.Chain == 6 {
+			id.Bait = rapid.SampledFrom([]int{1, 4, 5, 2, 3}).Draw(t, "bait")
+			id.BaitSigned = id.Bait <= 2 && rapid.Bool().Draw(t, "baitSigned")
+		}
+		return id
+	}), 1, 3).Draw(t, "baits")
+	st.Forge = rapid.Uint64().Draw(t, "forge")
+	st.Grant = rapid.Bool().Draw(t, "grant")
+	return st
+}
+
 func c01sGen(t *rapid.T) c01sCase {
 	c := c01sCase{Hidden: rapid.Bool().Draw(t, "hidden"), JudgeClient: rapid.Bool().Draw(t, "judgeClient")}
 	c.Policy = c01sGenPolicy(t, !c.JudgeClient)
-	c.Steps = rapid.SliceOfN(rapid.Custom(func(t *rapid.T) c01sStep { return c01sStep{Ident: c01sGenIdent(t)} }), 2, 4).Draw(t, "steps")
+	c.Steps = rapid.SliceOfN(rapid.Custom(func(t *rapid.T) c01sStep {
+		// a discoverable server is also faced with puppets that send several ClientAuth messages on one pending handshake
+		if !c.JudgeClient && !c.Hidden && rapid.IntRange(0, 2).Draw(t, "baited") == 0 {
+			return c01sGenBaited(t)
+		}
+		return c01sStep{Ident: c01sGenIdent(t)}
+	}), 2, 4).Draw(t, "steps")
 	return c
 }
 
@@ -2111,6 +2233,11 @@ func c01fGen(t *rapid.T) c01sCase {
 	}
 	c.Greets = rapid.Bool().Draw(t, "greets")
 	c.Steps = rapid.SliceOfN(rapid.Custom(func(t *rapid.T) c01sStep {
+		if !c.Hidden && rapid.IntRange(0, 2).Draw(t, "baited") == 0 {
+			st := c01sGenBaited(t) // several ClientAuth messages on one pending handshake
+			st.SNI = rapid.SampledFrom([]int{0, 0, 0, 0, 0, 1}).Draw(t, "sni")
+			return st
+		}
 		st := c01sStep{Puppet: rapid.SampledFrom([]bool{true, true, false}).Draw(t, "puppet")}
 		if rapid.SampledFrom([]int{0, 0, 1}).Draw(t, "kind") == 0 {
 			// the classic impostor (or, with the key, the honest peer): the victim's valid chain
